@@ -432,7 +432,14 @@ pub fn gen_energy(r: &mut Rng, w: &mut World) {
     // component (or a value stored under the wrong key) shows quickly
     let n_s = r.range(2, 6) as usize;
     let n_g = r.range(2, 6) as usize;
-    let sp: Vec<f64> = (0..n_s).map(|_| snap(10.0 + r.f64() * 110.0, ps).max(5.0)).collect();
+    // unit configuration of the time model (speed table), of the energy model and of the time model's outputs
+    let speed_unit = r.pick(&["kilometers_per_hour", "kilometers_per_hour", "miles_per_hour", "meters_per_second"]).to_string();
+    let unit_scale = match speed_unit.as_str() {
+        "miles_per_hour" => 1.0 / 1.609344,
+        "meters_per_second" => 1.0 / 3.6,
+        _ => 1.0,
+    };
+    let sp: Vec<f64> = (0..n_s).map(|_| snap((10.0 + r.f64() * 110.0) * unit_scale, ps).max(2.0)).collect();
     let gp: Vec<f64> = (0..n_g).map(|_| snap((r.f64() - 0.5) * 0.2, pg)).collect();
     for s in w.speeds.iter_mut() {
         *s = *r.pick(&sp);
@@ -467,7 +474,16 @@ pub fn gen_energy(r: &mut Rng, w: &mut World) {
         });
     }
     let grade_unit = r.pick(&["decimal", "decimal", "percent", "millis"]).to_string();
-    w.traversal = Traversal::Energy { speed_unit: "kilometers_per_hour".into(), grade_unit, vehicles };
+    let (distance_unit, time_unit, time_model_units) = if r.chance(0.5) {
+        (None, None, None)
+    } else {
+        (
+            Some(r.pick(&["miles", "kilometers", "meters"]).to_string()),
+            Some(r.pick(&["minutes", "hours", "seconds"]).to_string()),
+            Some((r.pick(&["miles", "kilometers", "meters"]).to_string(), r.pick(&["minutes", "hours", "seconds"]).to_string())),
+        )
+    };
+    w.traversal = Traversal::Energy { speed_unit, grade_unit, vehicles, distance_unit, time_unit, time_model_units };
     w.weights = vec![
         ("distance".into(), many_digits(r, 0.1, 1.0)),
         ("time".into(), many_digits(r, 0.1, 1.0)),
@@ -492,4 +508,7 @@ pub fn world_reach(w: &World, reach: &mut std::collections::BTreeMap<String, u64
     put("worlds_ksp", w.algorithm.get("k").is_some());
     put("worlds_combined_sinks", w.out2.is_some());
     put("worlds_policies_at_run_level", w.policies_at_run_level);
+    put("worlds_energy", matches!(w.traversal, Traversal::Energy { .. }));
+    put("worlds_tree_output", w.traversal_plugin.as_ref().map_or(false, |p| p.1.is_some()));
+    put("worlds_geometry_output", w.traversal_plugin.as_ref().map_or(false, |p| p.0 == "wkt" || p.0 == "geo_json" || p.0 == "wkb"));
 }
